@@ -353,7 +353,10 @@ pub fn run_checksum(req: &Value) -> Value {
         },
         None => Value::Null,
     };
-    json!({"rets": rets, "algorithms": algs, "items": items, "text": text, "back": back, "decoded": decoded})
+    // the per-character lower-casing (char::to_lowercase of every character) of each step's algorithm, for the concrete reference
+    let lowered: Vec<Value> = req["steps"].as_array().map(|v| v.as_slice()).unwrap_or(&[]).iter()
+        .map(|st| json!(hx(&unhex(&st[1]).chars().flat_map(char::to_lowercase).collect::<String>()))).collect();
+    json!({"rets": rets, "algorithms": algs, "items": items, "text": text, "back": back, "decoded": decoded, "lowered": lowered})
 }
 
 #[cfg(feature = "pt")]
